@@ -13,7 +13,7 @@
    * `self.state` is a field and survives only inside this call (a TextExtractor is used once).
    * transcribed from the code AFTER the repairs e3c03fc (TJ operand count), 6671623 (operand kinds of the
      double-quote operator), 50f0ff6 (q/Q class, in gen/OpTable.v), 58025b3 (end of stream after an unknown
-     operator inside BX); the witnesses against the pinned code are in corpus/c12.txt. *)
+     operator inside BX), 2fa7dae (empty stream); the witnesses against the pinned code are in corpus/c12.txt. *)
 From PV Require Export Spec.Fig9.
 From PV Require Export gen.OpTable gen.Trans.
 
@@ -138,8 +138,14 @@ Fixpoint loop (toks : list cstoken) (st : state) (nc : nat) (args : list cstoken
     end
   end.
 
-(* TextExtractor::new(..).parse(buf): state Content, nested_compats 0 *)
-Definition extract (toks : list cstoken) : res (list texttoken) := loop toks SContent 0 [] [].
+(* TextExtractor::new(..).parse(buf): state Content, nested_compats 0.
+   Before the loop: `ws.parse(buf)?; if buf.remaining() == 0 { return Ok(texts) }` — a stream without any object
+   (nothing but white space and comments) has no text. *)
+Definition extract (toks : list cstoken) : res (list texttoken) :=
+  match toks with
+  | [] => Ok []
+  | _ => loop toks SContent 0 [] []
+  end.
 
 (* ---------- case protocol ----------
    "T <hex stream> tok tok …": the model works on the tokens (the implementation on the bytes, after checking
